@@ -19,7 +19,23 @@ from e3fp.fingerprint.metrics import array_metrics as AM, fprint_metrics as FM  
 MEASURES = ["tanimoto", "dice", "soergel", "cosine", "pearson"]
 BINARY = ("tanimoto", "dice")
 FORMS = ["fp-fp", "fp-db", "db-fp", "db-db", "single-db", "fprint_metrics", "dense", "sparse", "sparse-unsorted", "sparse-zeros",
-         "cosine-binary"]
+         "cosine-binary", "sparse-native-unsorted", "dbarr-dbarr", "arr-single"]
+
+
+class OperandChanged(Exception):
+    """A similarity call altered one of its operands."""
+
+
+def csr_content(X):
+    """Canonical content of a CSR matrix: per row the sorted (column, value) pairs without zeros."""
+    out = []
+    for i in range(X.shape[0]):
+        lo, hi = X.indptr[i], X.indptr[i + 1]
+        acc = {}
+        for c, v in zip(X.indices[lo:hi].tolist(), X.data[lo:hi].tolist()):
+            acc[c] = acc.get(c, 0) + float(v)
+        out.append(sorted((c, v) for c, v in acc.items() if v != 0))
+    return out
 
 
 def vec(spec):
@@ -98,9 +114,10 @@ class C06(vlib.Check):
     props_modules = ["E3fpVerif.Props.C06", "E3fpVerif.Props.C06Real"]
     gen_items = ["metrics"]
     rule = ("pairs of fingerprints of all kinds (empty, identical, subset, disjoint, random; bits 8..2^32 for the fingerprint "
-            "forms, <= 4096 for the matrix forms) x five measures x eleven calling forms (metrics.* with fp/fp, fp/db, db/fp, "
+            "forms, <= 4096 for the matrix forms) x five measures x fourteen calling forms (metrics.* with fp/fp, fp/db, db/fp, "
             "db/db, single argument; fprint_metrics.*; array_metrics.* on dense arrays, canonical CSR, CSR with shuffled "
-            "column order, CSR with explicit zeros; cosine(assume_binary)). Non-trivial: both operands non-empty and not "
+            "column order, CSR with explicit zeros; cosine(assume_binary); CSR in the kind's own dtype with shuffled columns and "
+            "databases built by from_array on such matrices, each with an operand-unchanged check; array_metrics.*(X) alone). Non-trivial: both operands non-empty and not "
             "identical; distinct by (measure, form, operands).")
     trusted_base = ["SciPy sparse product / norms, np.corrcoef, cdist, nan_to_num, Numba-compiled Soergel kernels (compared on every run)"]
     assumptions = ["float results are compared with the exact rational (or num/sqrt(rad)) to 1e-9 relative"]
@@ -201,9 +218,39 @@ class C06(vlib.Check):
                 b2["cnt"] = [[i, str(int(Fraction(v)))] for i, v in b["cnt"]]
             db.add_fingerprints([make_fp(a), make_fp(b2)])
             return float(np.asarray(f(db))[0, 1])
+        if form == "dbarr-dbarr":
+            # databases handed over as CSR matrices with rows in arbitrary column order, in the kind's own dtype
+            r = random.Random(case.get("seed", 0))
+            dbs = []
+            for spec in (a, b):
+                X = csr_rows([spec], spec["bits"], DTYPE[spec["kind"]], "shuffle", rng=r)
+                dbs.append(FingerprintDatabase.from_array(X, ["x"], fp_type=CLS[spec["kind"]], level=spec["level"]))
+            before = [csr_content(d.array) for d in dbs]
+            v = float(np.asarray(f(dbs[0], dbs[1]))[0, 0])
+            if [csr_content(d.array) for d in dbs] != before:
+                raise OperandChanged("%s(db, db) changed the content of a database built from an unsorted CSR matrix" % m)
+            return v
         # raw arrays
         xa, xb = self.effective(case)
         binary = m in BINARY or form == "cosine-binary"
+        if form == "sparse-native-unsorted":
+            r = random.Random(case.get("seed", 0))
+            sa = {"kind": "float", "idx": sorted(xa), "cnt": [[i, str(xa[i])] for i in sorted(xa)]}
+            sb = {"kind": "float", "idx": sorted(xb), "cnt": [[i, str(xb[i])] for i in sorted(xb)]}
+            X = csr_rows([sa], a["bits"], np.bool_ if binary else DTYPE[a["kind"]], "shuffle", rng=r)
+            Y = csr_rows([sb], b["bits"], np.bool_ if binary else DTYPE[b["kind"]], "shuffle", rng=r)
+            before = (csr_content(X), csr_content(Y))
+            v = float(getattr(AM, m)(X, Y)[0, 0])
+            if (csr_content(X), csr_content(Y)) != before:
+                raise OperandChanged("array_metrics.%s changed the content of a sparse operand with unsorted rows" % m)
+            return v
+        if form == "arr-single":
+            sa = {"kind": "float", "idx": sorted(xa), "cnt": [[i, str(xa[i])] for i in sorted(xa)]}
+            sb = {"kind": "float", "idx": sorted(xb), "cnt": [[i, str(xb[i])] for i in sorted(xb)]}
+            X = csr_rows([sa, sb], a["bits"], float)
+            if case.get("seed", 0) % 2:
+                X = X.toarray()
+            return float(np.asarray(getattr(AM, m)(X))[0, 1])
         sa = {"kind": "float", "idx": sorted(xa), "cnt": [[i, str(xa[i])] for i in sorted(xa)]}
         sb = {"kind": "float", "idx": sorted(xb), "cnt": [[i, str(xb[i])] for i in sorted(xb)]}
         bits = a["bits"]
@@ -256,7 +303,7 @@ class C06(vlib.Check):
             return [{"op": "met.dispatch", "m": m, "a": {"fp": a}, "b": as_db(b)}]
         if form == "db-fp":
             return [{"op": "met.dispatch", "m": m, "a": as_db(a), "b": {"fp": b}}]
-        if form == "db-db":
+        if form in ("db-db", "dbarr-dbarr"):
             return [{"op": "met.dispatch", "m": m, "a": as_db(a), "b": as_db(b)}]
         if form == "single-db":
             b2 = dict(b, kind=a["kind"])
@@ -283,7 +330,7 @@ class C06(vlib.Check):
                 free = [i for i in range(min(a["bits"], 64)) if i not in x]
                 for i in free[:2]:
                     row.append([i, "0"])
-        if form == "sparse-unsorted":
+        if form in ("sparse-unsorted", "sparse-native-unsorted"):
             r.shuffle(ra)
             r.shuffle(rb)
         return [{"op": "met.arr", "m": m, "x": ra, "y": rb, "bits": a["bits"], "dense": form == "dense"}]
@@ -325,6 +372,8 @@ class C06(vlib.Check):
             return {"key": "length-mismatch-accepted:" + form, "what": "%s (%s) accepted operands of %d and %d bits" % (m, form, a["bits"], b["bits"])}
         try:
             v = self._call(case)
+        except OperandChanged as e:
+            return {"key": "metric-changes-operand:%s:%s" % (m, form), "what": str(e)}
         except Exception as e:  # noqa: BLE001
             return {"key": "metric-raises:%s:%s:%s" % (m, form, type(e).__name__), "what": "%s (%s) raised %r" % (m, form, e)}
         xa, xb = self.effective(case)
